@@ -67,6 +67,10 @@ pub struct PkgDir {
     pub crash_at: usize,
     /// content of each of the 14 files
     pub contents: Vec<String>,
+    /// other files lying in the package directory (editor backups, lock files,
+    /// files of a newer pkg_install): half are created before, half after the '+' files
+    #[serde(default)]
+    pub extras: usize,
 }
 
 #[derive(Clone, Copy, Debug, Serialize, Deserialize, PartialEq, Eq)]
@@ -221,6 +225,7 @@ impl Property for C20 {
                     order,
                     crash_at,
                     contents: (0..NFILES).map(|f| gen_content(rng, f)).collect(),
+                    extras: if rng.chance(1, 6) { rng.urange(1, 40) } else { 0 },
                 }
             })
             .collect();
@@ -342,6 +347,15 @@ impl Property for C20 {
             let dir = dbpath.join(OsString::from_vec(p.name.clone()));
             std::fs::create_dir_all(&dir).unwrap_or_else(|e| panic!("SIM-HARNESS: mkdir {:?}: {}", dir, e));
             let mut ex = [false; NFILES];
+            for x in 0..p.extras / 2 {
+                let _ = std::fs::write(dir.join(format!("extra-before-{:03}", x)), b"x");
+            }
+            if p.extras > 0 {
+                ctx.fault("extra_files_in_package_dir");
+                if p.extras >= 14 {
+                    ctx.probe("package-dir-with-more-than-14-other-files");
+                }
+            }
             for (k, &f) in p.order.iter().enumerate() {
                 if k >= p.crash_at || f >= NFILES {
                     break;
@@ -350,6 +364,9 @@ impl Property for C20 {
                     .unwrap_or_else(|e| panic!("SIM-HARNESS: write: {}", e));
                 ex[f] = true;
                 ctx.step("install-write", f as u64, k as u64);
+            }
+            for x in p.extras / 2..p.extras {
+                let _ = std::fs::write(dir.join(format!("+EXTRA_AFTER_{:03}", x)), b"x");
             }
             if p.crash_at < NFILES {
                 ctx.fault("crash_during_install");
@@ -652,8 +669,14 @@ impl Property for C20 {
         Ok(())
     }
 
-    fn shrink(&self, sc: &Sc) -> Vec<Sc> {
-        let mut out = Vec::new();
+    fn shrink(&self, sc: &Sc, emit: &mut dyn FnMut(Sc) -> bool) {
+        macro_rules! push {
+            ($e:expr) => {
+                if emit($e) {
+                    return;
+                }
+            };
+        }
         for i in 0..sc.pkgs.len() {
             let mut s = sc.clone();
             s.pkgs.remove(i);
@@ -663,28 +686,33 @@ impl Property for C20 {
                     st.pkg -= 1;
                 }
             }
-            out.push(s);
+            push!(s);
         }
         for st in shrink_vec(&sc.installer) {
-            out.push(Sc { installer: st, ..sc.clone() });
+            push!(Sc { installer: st, ..sc.clone() });
         }
         for st in shrink_vec(&sc.strays) {
-            out.push(Sc { strays: st, ..sc.clone() });
+            push!(Sc { strays: st, ..sc.clone() });
         }
         if !sc.probes.is_empty() {
-            out.push(Sc { probes: vec![], ..sc.clone() });
+            push!(Sc { probes: vec![], ..sc.clone() });
         }
         for (i, p) in sc.pkgs.iter().enumerate() {
             if p.crash_at != NFILES {
                 let mut s = sc.clone();
                 s.pkgs[i].crash_at = NFILES;
-                out.push(s);
+                push!(s);
+            }
+            for e in shrink_usize(p.extras) {
+                let mut s = sc.clone();
+                s.pkgs[i].extras = e;
+                push!(s);
             }
             let sorted: Vec<usize> = (0..NFILES).collect();
             if p.order != sorted {
                 let mut s = sc.clone();
                 s.pkgs[i].order = sorted;
-                out.push(s);
+                push!(s);
             }
             for f in 0..NFILES {
                 let simple = if f == F_SIZE_ALL || f == F_SIZE_PKG { "1" } else { "x" };
@@ -693,25 +721,24 @@ impl Property for C20 {
                 let half: String = p.contents[f].chars().take(p.contents[f].chars().count() / 2).collect();
                 let mut s = sc.clone();
                 s.pkgs[i].contents[f] = half;
-                out.push(s);
+                push!(s);
                 let tail: String = p.contents[f].chars().skip(p.contents[f].chars().count() / 2).collect();
                 let mut s = sc.clone();
                 s.pkgs[i].contents[f] = tail;
-                out.push(s);
+                push!(s);
             }
             if p.contents[f] != simple {
                     let mut s = sc.clone();
                     s.pkgs[i].contents[f] = simple.to_string();
-                    out.push(s);
+                    push!(s);
                 }
             }
             if p.name != b"p-1" && !sc.pkgs.iter().any(|q| q.name == b"p-1") {
                 let mut s = sc.clone();
                 s.pkgs[i].name = b"p-1".to_vec();
-                out.push(s);
+                push!(s);
             }
         }
-        out
     }
 
     fn classify(&self, sc: &Sc, v: &Violation) -> String {
@@ -771,6 +798,7 @@ impl Property for C20 {
             "changed-during-iteration-not-seen",
             "metadata-valid",
             "metadata-invalid",
+            "package-dir-with-more-than-14-other-files",
         ]
     }
 }
